@@ -286,8 +286,116 @@ def check_fft_transfer(tier, seed):
     return _pack('mesh_to_mesh_fft.restrict/prolong', obs, 'band-limited periodic data reproduced exactly; injection after prolongation = identity; per component', 'coarse sizes x refinement ratios 2, 4; all modes below the coarse Nyquist frequency')
 
 
+class _P2:
+    def __init__(self, n):
+        self.nvars = (n, n)
+        self.init = ((n, n), None, np.dtype('float64'))
+
+
+def check_fft2d_transfer(tier, seed):
+    """mesh_to_mesh_fft2d (refinement ratio 2, the stated range): every product mode below the coarse Nyquist frequency is reproduced,
+    injection after prolongation returns the coarse data, mesh and imex_mesh keep their type and are treated per component"""
+    from pySDC.implementations.transfer_classes.TransferMesh_FFT2D import mesh_to_mesh_fft2d
+    from pySDC.implementations.datatype_classes.mesh import mesh, imex_mesh
+    from pySDC.core.errors import TransferError
+
+    obs = []
+    for nc in (4, 8) if tier == 'quick' else (4, 8, 16, 32):
+        nf = 2 * nc
+        T = mesh_to_mesh_fft2d(_P2(nf), _P2(nc), {})
+        xc, xf = np.arange(nc) / nc, np.arange(nf) / nf
+        Xc, Yc = np.meshgrid(xc, xc, indexing='ij')
+        Xf, Yf = np.meshgrid(xf, xf, indexing='ij')
+        bad = []
+        for k in range(nc // 2):
+            for l in range(nc // 2):
+                for fun in (np.cos, np.sin):
+                    G = mesh(_P2(nc).init)
+                    G[:] = fun(2 * np.pi * (k * Xc + l * Yc))
+                    G0 = np.array(G)
+                    F = T.prolong(G)
+                    if not (type(F) is mesh and F.shape == (nf, nf) and np.allclose(F, fun(2 * np.pi * (k * Xf + l * Yf)), atol=1e-11)):
+                        bad.append((k, l, fun.__name__, 'prolong'))
+                    if not np.allclose(T.restrict(F), G0, atol=1e-11) or not np.array_equal(G0, G):
+                        bad.append((k, l, fun.__name__, 'injection_or_argument_changed'))
+        obs.append(_ob(f'fft2d[nc={nc}]:band_limited_exact_and_injection_after_prolongation_is_identity', not bad, dict(first=bad[:4])))
+        try:
+            G = imex_mesh(_P2(nc).init)
+            G.impl[:] = np.cos(2 * np.pi * (Xc + Yc))
+            G.expl[:] = np.sin(2 * np.pi * Yc)
+            F = T.prolong(G)
+            ok = type(F) is imex_mesh and np.allclose(F.impl, np.cos(2 * np.pi * (Xf + Yf)), atol=1e-11) and np.allclose(F.expl, np.sin(2 * np.pi * Yf), atol=1e-11)
+            B = T.restrict(F)
+            ok = ok and type(B) is imex_mesh and np.allclose(B.impl, G.impl, atol=1e-11) and np.allclose(B.expl, G.expl, atol=1e-11)
+            obs.append(_ob(f'fft2d[nc={nc}]:imex_components_separately', ok))
+        except Exception as e:
+            obs.append(_ob(f'fft2d[nc={nc}]:imex_components_separately', False, dict(error=repr(e)[:200])))
+        for what, fn in (('restrict', T.restrict), ('prolong', T.prolong)):
+            try:
+                fn(np.zeros((nc, nc)))
+                obs.append(_ob(f'fft2d[nc={nc}]:{what}_rejects_unknown_data_type', False))
+            except TransferError:
+                obs.append(_ob(f'fft2d[nc={nc}]:{what}_rejects_unknown_data_type', True))
+    return _pack('mesh_to_mesh_fft2d.restrict/prolong', obs, 'band-limited doubly periodic data reproduced exactly; injection after prolongation = identity; per component; unknown types rejected', 'coarse sizes 4..32 squared, refinement ratio 2, all product modes below the coarse Nyquist frequency')
+
+
+def check_nocoarse_transfer(tier, seed):
+    """the "no coarsening in space" transfer classes: restrict and prolong return an equal COPY of the same data type; unknown types are rejected"""
+    from pySDC.implementations.transfer_classes.TransferMesh_NoCoarse import mesh_to_mesh as nocoarse
+    from pySDC.implementations.transfer_classes.TransferParticles_NoCoarse import particles_to_particles
+    from pySDC.implementations.datatype_classes.mesh import mesh, imex_mesh
+    from pySDC.implementations.datatype_classes.particles import particles, fields, acceleration
+    from pySDC.core.errors import TransferError
+
+    rng = np.random.RandomState(seed + 5)
+    obs = []
+    T = nocoarse(_P(8, True), _P(8, True), {})
+    for cls in (mesh, imex_mesh):
+        x = cls((8, None, np.dtype('float64')))
+        if cls is mesh:
+            x[:] = rng.randn(8)
+        else:
+            x.impl[:], x.expl[:] = rng.randn(8), rng.randn(8)
+        x0 = np.array(x)
+        for what, fn in (('restrict', T.restrict), ('prolong', T.prolong)):
+            y = fn(x)
+            obs.append(_ob(f'nocoarse[{cls.__name__}]:{what}_is_an_equal_copy_of_the_same_type', type(y) is cls and y is not x and np.array_equal(y, x0) and not np.shares_memory(y, x) and np.array_equal(x, x0)))
+    Tp = particles_to_particles(None, None, {})
+    init = ((3, 2), None, np.dtype('float64'))
+
+    def parts(x):
+        if isinstance(x, particles):
+            return [x.pos, x.vel, x.q, x.m]
+        if isinstance(x, fields):
+            return [x.elec, x.magn]
+        return [x]
+
+    for cls in (particles, fields, acceleration):
+        x = cls(init)
+        if cls is particles:
+            x.pos[:], x.vel[:] = rng.randn(3, 2), rng.randn(3, 2)
+            x.q[:], x.m[:] = rng.randn(2), rng.rand(2) + 1
+        elif cls is fields:
+            x.elec[:], x.magn[:] = rng.randn(3, 2), rng.randn(3, 2)
+        else:
+            x[:] = rng.randn(*x.shape)
+        x0 = [np.array(a) for a in parts(x)]
+        for what, fn in (('restrict', Tp.restrict), ('prolong', Tp.prolong)):
+            y = fn(x)
+            ok = type(y) is cls and y is not x and all(np.array_equal(a, b) for a, b in zip(parts(y), x0)) and not any(np.shares_memory(a, b) for a, b in zip(parts(y), parts(x)))
+            ok = ok and all(np.array_equal(a, b) for a, b in zip(parts(x), x0))
+            obs.append(_ob(f'nocoarse[{cls.__name__}]:{what}_is_an_equal_copy_of_the_same_type', ok))
+    for nm, fn in (('mesh.restrict', T.restrict), ('mesh.prolong', T.prolong), ('particles.restrict', Tp.restrict), ('particles.prolong', Tp.prolong)):
+        try:
+            fn(np.zeros(8))
+            obs.append(_ob(f'nocoarse[{nm}]:rejects_unknown_data_type', False))
+        except TransferError:
+            obs.append(_ob(f'nocoarse[{nm}]:rejects_unknown_data_type', True))
+    return _pack('TransferMesh_NoCoarse / TransferParticles_NoCoarse', obs, 'identity transfers return equal copies of the same type', 'mesh, imex_mesh, particles, fields, acceleration')
+
+
 CONTRACTS = []
-EXTRAS = [check_time_transfer, check_space_1d, check_mesh_to_mesh, check_fft_transfer]
+EXTRAS = [check_time_transfer, check_space_1d, check_mesh_to_mesh, check_fft_transfer, check_fft2d_transfer, check_nocoarse_transfer]
 ASSUMPTIONS = ['qmat.LagrangeApproximation / scipy BarycentricInterpolator / numpy.fft are external: their output is what is checked (exact rational evaluation, allowance 1e-9..1e-10)',
                'closure from monomials / single modes to all polynomials / band-limited functions by linearity']
-UNDECIDED = ['FFT2D, MPIFFT, NoCoarse and particle transfer classes', 'grid sizes beyond the enumerated ones']
+UNDECIDED = ['MPIFFT transfer classes (mpi4py-fft absent)', 'mesh_to_mesh_fft2d with refinement ratios other than 2 (outside the stated range; the scaling factor ratio*2 is only right for ratio 2)', 'grid sizes beyond the enumerated ones']
